@@ -187,6 +187,8 @@ def check(ctx, only_h1: bool = False, h1_rule: str = "C13-H1") -> None:
             cur = par
         if kind is None and isinstance(stmt, ast.Assign) and any(isinstance(t, ast.Subscript) and issue in texts(ctx.ev.eval(t.slice, st.env)) for t in stmt.targets):
             kind = "issue-text"
+        if kind is None and not influences_result(u):
+            kind = "logging"
         # a comparison yields a decision (boolean / boolean array); it may be stored and counted.
         # What must not happen is that the threshold takes part in computing the confidence itself:
         # the statement must not define a value the stored confidence is derived from.
